@@ -104,7 +104,7 @@ ConnFaults(D, m, inst, c) ==
             ELSE IF inst.kind = "array" /\ w = f.w * inst.arr THEN {}
             ELSE {"width_mismatch"}
        ELSE IF inst.kind = "pair"
-       THEN (IF BLeaves(D, m, c.t) = {<< <<"p">>, f.w >>, << <<"n">>, f.w >>} THEN {} ELSE {"pair_bundle_mismatch"})
+       THEN (IF BLeaves(D, m, c.t) = {<< <<PairMembers(inst)[k]>>, f.w >> : k \in 1..Len(PairMembers(inst))} THEN {} ELSE {"pair_bundle_mismatch"})
        ELSE {"bundle_to_signal_port"}
 
 (* a port without an explicit connection is still connected if a live connection references it (inst.port used as a term) *)
